@@ -5,8 +5,12 @@
 (* with fields op, res, proj, kids (line numbers of the children); line 1  *)
 (* is the synthetic root.  A container module supplies                     *)
 (*                                                                         *)
-(*   Out(s, op)    the set of outcomes [st, res] the PROPERTY allows       *)
-(*   KFOut(s, op)  outcomes [st, res, kf, taint] of OPEN known findings    *)
+(*   TOut(s, e)    the set of outcomes [st, res] the PROPERTY allows for   *)
+(*                 the recorded event e (normally X!Out(s, e.op); the      *)
+(*                 event is passed so that relational results - "any       *)
+(*                 permutation ordered by the comparator" - can be judged  *)
+(*                 by testing the recorded one)                            *)
+(*   TKFOut(s, e)  outcomes [st, res, kf, taint] of OPEN known findings    *)
 (*   ProjOK(s, p)  is the recorded projection p consistent with state s    *)
 (*   Trig(S, e)    ids of latent findings triggered by event e (a set;     *)
 (*                 non-empty switches judging off below e, never on)       *)
@@ -21,7 +25,7 @@
 (***************************************************************************)
 EXTENDS Naturals, Sequences, FiniteSets, TLC
 
-CONSTANTS Out(_, _), KFOut(_, _), ProjOK(_, _), Trig(_, _), S0,
+CONSTANTS TOut(_, _), TKFOut(_, _), ProjOK(_, _), Trig(_, _), S0,
           T       \* the recording; defined in the ROOT module as
                   \* ndJsonDeserialize(IOEnv.TRACE) so that TLC evaluates it once
 
@@ -40,12 +44,12 @@ Init == /\ S = {S0}
         /\ taint = FALSE
 
 Explained(out(_, _), e) ==
-    { o \in UNION { out(s, e.op) : s \in S } : o.res = e.res /\ ProjOK(o.st, e.proj) }
+    { o \in UNION { out(s, e) : s \in S } : o.res = e.res /\ ProjOK(o.st, e.proj) }
 
 Walk(i) ==
     LET e  == T[i]
-        m  == Explained(Out, e)
-        mk == Explained(KFOut, e)
+        m  == Explained(TOut, e)
+        mk == Explained(TKFOut, e)
     IN  /\ node' = i
         /\ IF taint
              THEN UNCHANGED <<S, err, kf, taint>>                    \* walked, not judged
